@@ -96,7 +96,8 @@ def decode_one(text: bytes | str, pos: int) -> tuple[int, int]:
             return error
         if b3 & 0xC0 != 0x80:
             return error
-        if (o := ((b1 & 0x0F) << 12) | ((b2 & 0x3F) << 6) | (b3 & 0x3F)) >= 0x800:
+        o = ((b1 & 0x0F) << 12) | ((b2 & 0x3F) << 6) | (b3 & 0x3F)
+        if o >= 0x800 and not 0xD800 <= o <= 0xDFFF:  # UTF-16 surrogates are ill-formed in UTF-8
             return o, pos + 3
         return error
     if lt < 4:
